@@ -44,9 +44,9 @@ class Gen:
                                                      (1000000, 10000000000), (-5, -5)]))
         if r.random() < self.p.get("cfgx", 0.25):
             # the rest of the Config: user name, password (also without a user name), will, keep-alive
-            user = r.choice([b"", b"", b"u", b"user"])
-            pw = r.choice([None, None, b"", b"pw", bytes(range(40))])
-            wm = r.choice([None, None, b"", b"bye"])
+            user = r.choice([b"", b"", b"u", b"user", b"u" * 300])
+            pw = r.choice([None, None, b"", b"pw", bytes(range(40)), bytes(range(256)) + b"xy"])
+            wm = r.choice([None, None, b"", b"bye", b"w" * 256, bytes(range(256)) * 2])
             wq = r.choice([(0, 0), (1, 0), (0, 1)])
             self.ops.append("cfgx %d %s %s %s %s %d %d %d" % (r.choice([0, 30, 65535]), H(user), "nil" if pw is None else H(pw),
                                                              H(b"w/t") if wm is not None or r.random() < 0.3 else "-", "nil" if wm is None else H(wm),
@@ -93,7 +93,14 @@ class Gen:
         if kind == "ok" or kind == "sp":
             ca = mq.connack(1 if kind == "sp" else 0, 0)
             pol = ""
-            self.emit("dial ok %s%s" % (H(ca), pol), "feed block", "rs")
+            if r.random() < 0.2 and not self.waiter and not self.owed:
+                # the CONNACK comes in one segment with what follows it: a whole packet, or the first bytes of one
+                nxt = mq.publish(0, self.topic(), self.payload(False))
+                cut = r.choice([len(nxt), len(nxt), r.randrange(1, len(nxt))])
+                self.emit("dial ok %s" % H(ca + nxt[:cut]), "feed %sblock" % ((H(nxt[cut:]) + " ") if cut < len(nxt) else ""), "rs")
+                self.emit("rs")
+            else:
+                self.emit("dial ok %s%s" % (H(ca), pol), "feed block", "rs")
             if kind == "sp" and self.clean and not getattr(self, "had_conn", False):
                 self.link = "down"
             else:
